@@ -2,6 +2,7 @@ package main
 
 import (
 	"fmt"
+	"github.com/elementsproject/peerswap/swap"
 	"sort"
 	"strings"
 	"sync"
@@ -278,11 +279,13 @@ func init() {
 						}
 						// counterparty messages: allowed to change the record only when the state's table accepts the event
 						if mode == 0 {
-							for _, s := range []string{"coop", "txmsg", "agree", "cancel"} {
+							// malformed variants first: a message whose type the state does not accept must change nothing
+							// even when its content is invalid (the table is consulted before the content)
+							for _, s := range []string{"agree badpubkey", "coop badkey", "coop", "txmsg", "agree", "cancel"} {
 								st0 := c.state()
+								accepted := tableAccepts(role, st0, peerEventOf(c.role, s))
 								c.Step(s)
-								accepted := c.state() != st0
-								res.Histogram[fmt.Sprintf("peer msg accepted=%v", accepted)]++
+								res.Histogram[fmt.Sprintf("peer msg accepted-by-table=%v", accepted)]++
 								check("peer "+s+" in "+stName, accepted)
 							}
 						}
@@ -293,4 +296,40 @@ func init() {
 		}
 		_ = n
 	}
+}
+
+// tableAccepts: does the running code's state table of the role have a transition for the event in the state
+func tableAccepts(role, state, event string) bool {
+	want := map[string]string{"outSender": "SwapOutSender", "outReceiver": "SwapOutReceiver", "inSender": "SwapInSender", "inReceiver": "SwapInReceiver"}[role]
+	ev := swap.VerifEventNames()[event]
+	for _, t := range swap.VerifTables() {
+		if t.Role != want {
+			continue
+		}
+		for _, st := range t.States {
+			if st.State == state {
+				_, ok := st.Events[ev]
+				return ok
+			}
+		}
+	}
+	return false
+}
+
+// peerEventOf: the event the service raises for the peer message a scenario step delivers
+func peerEventOf(role, step string) string {
+	switch strings.Fields(step)[0] {
+	case "cancel":
+		return "Event_OnCancelReceived"
+	case "coop":
+		return "Event_OnCoopCloseReceived"
+	case "txmsg":
+		return "Event_OnTxOpenedMessage"
+	case "agree":
+		if role == "outSender" {
+			return "Event_OnFeeInvoiceReceived"
+		}
+		return "Event_SwapInSender_OnAgreementReceived"
+	}
+	return ""
 }
